@@ -339,5 +339,10 @@ theorem nsf_run (x y : P2P × TLState) (h : ∃ gh, SessInv x.1 gh x.2 []) (h0 :
       show 0 ≤ s'.nextSpectatorFrame
       have : 0 ≤ s.nextSpectatorFrame := ih
       omega
+    | localInput s t handle input =>
+      obtain ⟨l, hl⟩ := P2P.addLocalInput_pending s handle input
+      show 0 ≤ (s.addLocalInput handle input).1.nextSpectatorFrame
+      rw [hl]; exact ih
+    | saves s t sv => exact ih
 
 end Ggrs
